@@ -255,7 +255,11 @@ class _ReusablePoolExecutor(ProcessPoolExecutor):
                 time.sleep(1e-3)
 
             with self._processes_management_lock:
-                self._adjust_process_count()
+                # Do not add workers to an executor that was flagged as broken
+                # or shut down in the meantime: its manager thread is
+                # terminating it and would neither stop nor join them.
+                if self._flags.broken is None and not self._flags.shutdown:
+                    self._adjust_process_count()
             while not self._flags.broken and not all(
                 p.is_alive() for p in list(self._processes.values())
             ):
